@@ -265,6 +265,7 @@ M2 = '''class Base(object):
 
     def bmeth(self):
         self.binst = 2
+        self.shared = 'text'
         return self
 
 
@@ -288,7 +289,12 @@ class Mid(Base):
 
     def mmeth(self):
         self.minst = Base()
+        self.shared = Base()
         return self.minst
+
+    def mother(self):
+        self.shared = make_mid
+        return self
 
 
 def make_mid():
@@ -310,6 +316,8 @@ for i in [1, 2]:
     y = x
 w = make_mid().mmeth().bmeth()
 print(x.mattr, y.binst, m1.val.battr, z, w.binst, m1.item.minst)
+base = m1.second.Base()
+print(base.shared.upper, x.shared.battr, base.bmeth().shared, x.mother().shared, m1.val.shared.lower)
 '''
 MODS = {'m0': M0, 'm1': M1, 'm2': M2}
 
